@@ -19,7 +19,7 @@ def gen_inputs(ctx):
     for net in ("main", "test"):
         for k in range(3 if q else 30):
             if k < 3:
-                src = {"mnemonic": T(MNEMONICS[k]), "password": T(rng.choice(["", "TREZOR", "pässwörd"]))}
+                src = {"mnemonic": T(MNEMONICS[k]), "password": T(["", " padded pass \t", "pässwörd"][k])}
             else:
                 src = {"seed": B(bytes(rng.randrange(256) for _ in range(rng.choice([16, 32, 64])))), "mnemonic": T(""), "password": T("")}
             combos = [(rng.choice(accounts), rng.choice(intervals)) for _ in range(3 if q else 4)]
